@@ -468,7 +468,7 @@ func doCheck(id, tier string, keep bool) int {
 	for i, b := range bins {
 		passes = append(passes, pass{b, false, fmt.Sprintf("b%d", i)})
 	}
-	if spec.testMode {
+	if spec.testMode && tier == "thorough" {
 		passes = append(passes, pass{bins[0], true, "testmode"})
 	}
 	var results []*Result
